@@ -87,8 +87,25 @@ func wSocket(iters int) {
 	rt, a, b := twoHosts()
 	defer rt.Stop()
 	for k := 0; k < iters/50+1; k++ {
-		ca, err1 := a.ListenUDP("udp", vn.UDP("10.0.0.1", 5000))
-		cb, err2 := b.ListenUDP("udp", vn.UDP("10.0.0.2", 5000))
+		// socket flavours by round: bound to the host's address, bound to the wildcard address (the source address is
+		// worked out per write), and a connected socket on one side
+		var ca, cb net.PacketConn
+		var err1, err2 error
+		switch k % 3 {
+		case 0:
+			ca, err1 = a.ListenUDP("udp", vn.UDP("10.0.0.1", 5000))
+			cb, err2 = b.ListenUDP("udp", vn.UDP("10.0.0.2", 5000))
+		case 1:
+			ca, err1 = a.ListenUDP("udp", vn.UDP("0.0.0.0", 5000))
+			cb, err2 = b.ListenUDP("udp", vn.UDP("0.0.0.0", 5000))
+		default:
+			ca, err1 = a.ListenUDP("udp", vn.UDP("0.0.0.0", 5000))
+			var cc net.Conn
+			cc, err2 = b.DialUDP("udp", vn.UDP("10.0.0.2", 5000), vn.UDP("10.0.0.1", 5000))
+			if err2 == nil {
+				cb = cc.(net.PacketConn)
+			}
+		}
 		if err1 != nil || err2 != nil {
 			panic(fmt.Sprint("races harness: bind failed: ", err1, err2))
 		}
@@ -101,6 +118,9 @@ func wSocket(iters int) {
 				for atomic.LoadInt32(&stop) == 0 {
 					cb.WriteTo([]byte("hello"), vn.UDP("10.0.0.1", 5000))
 					ca.WriteTo([]byte("world"), vn.UDP("10.0.0.2", 5000))
+					if k%3 != 0 {
+						ca.WriteTo([]byte("self"), vn.UDP("127.0.0.1", 5000)) // a wildcard socket reaches itself over loopback
+					}
 					op()
 				}
 			}()
@@ -113,7 +133,9 @@ func wSocket(iters int) {
 				for atomic.LoadInt32(&stop) == 0 {
 					ca.ReadFrom(buf)
 					_ = ca.LocalAddr()
-					_ = ca.RemoteAddr()
+					if ra, ok := cb.(interface{ RemoteAddr() net.Addr }); ok {
+						_ = ra.RemoteAddr()
+					}
 					op()
 				}
 			}()
